@@ -269,6 +269,8 @@ type Sorts struct {
 	tags        map[string]int // dynamic type string -> tag id
 	tagNames    []string
 	repoPrefix  string
+	zeroArrays  map[Sort]string
+	zeroOrder   []Sort
 }
 
 func newSorts() *Sorts {
@@ -436,7 +438,21 @@ func (so *Sorts) zeroOfSort(s Sort) Term {
 		return Term{app(info.Ctor, args...), s}
 	}
 	if strings.HasPrefix(string(s), "(Array ") {
-		return Term{"((as const " + string(s) + ") " + so.zeroOfSort(arrayElemSort(s)).S + ")", s}
+		z := so.zeroOfSort(arrayElemSort(s))
+		if !strings.Contains(z.S, "str_empty") {
+			return Term{"((as const " + string(s) + ") " + z.S + ")", s}
+		}
+		// cvc5 only accepts values in constant arrays: use a named all-zero array with a defining axiom
+		if so.zeroArrays == nil {
+			so.zeroArrays = map[Sort]string{}
+		}
+		name, ok := so.zeroArrays[s]
+		if !ok {
+			name = fmt.Sprintf("zero_row_%d", len(so.zeroArrays)+1)
+			so.zeroArrays[s] = name
+			so.zeroOrder = append(so.zeroOrder, s)
+		}
+		return Term{name, s}
 	}
 	panic("zeroOfSort: " + string(s))
 }
